@@ -145,15 +145,25 @@ def decode_file(lz, data, read_size, rng, max_calls=400000):
     whole = lz.Buf(len(data), data)
     pos = 0; events = []; problems = []
     ret = lz.OK
+    sched = list(read_size) if isinstance(read_size, list) else None      # [first chunk, then ...]: the last one repeats
     for _ in range(max_calls):
-        want = read_size if read_size > 0 else rng.choice([1, 2, 3, 11, 12, 13, 100, 1000, 5000, 8191, 8192, 8193, 20000])
+        if sched is not None:
+            want = sched.pop(0) if len(sched) > 1 else sched[0]
+        else:
+            want = read_size if read_size > 0 else rng.choice([1, 2, 3, 11, 12, 13, 100, 1000, 5000, 8191, 8192, 8193, 20000])
         n = min(want, len(data) - pos)
         if n == 0:
             problems.append(("fileinfo:starved", "decoder wants input at the end of the file (pos %d)" % pos))
             break
         s.next_in = whole.addr + pos; s.avail_in = n; s.next_out = None; s.avail_out = 0
+        t_in = s.total_in
         ret = c.code_raw(lz.RUN)
         used = n - s.avail_in
+        # accounting of the public lzma_stream fields: nothing behind the given input may be consumed
+        if not 0 <= used <= n or (s.next_in or 0) != whole.addr + pos + used or s.total_in != t_in + used:
+            problems.append(("fileinfo:accounting", "input of %d bytes at %d: avail_in %d, next_in advanced by %d, total_in by %d (%s)" % (
+                n, pos, s.avail_in, (s.next_in or 0) - whole.addr - pos, s.total_in - t_in, lz.retname(ret))))
+            break
         ev = {"e": "Call", "pos": pos, "n": n, "ret": lz.retname(ret), "used": used,
               "seek": s.seek_pos if ret == lz.SEEK_NEEDED else 0}
         events.append(ev)
@@ -249,7 +259,7 @@ def worker(lz, src, dst, mode):
                             if lz.L().lzma_index_file_size(p) != len(data):
                                 raise Mismatch("file_size", "index file size %d, file %d" % (lz.L().lzma_index_file_size(p), len(data)))
                         except Mismatch as e:
-                            res["problems"].append(("fileinfo:index:" + e.field, "read size %d: %s" % (rs, e.detail)))
+                            res["problems"].append(("fileinfo:index:" + e.field, "read size %s: %s" % (rs, e.detail)))
                         it = lz.IndexIter(); lz.L().lzma_index_iter_init(C.byref(it), p); pads = []
                         while not lz.L().lzma_index_iter_next(C.byref(it), lz.ITER_STREAM):
                             pads.append(it.stream.padding)
